@@ -504,6 +504,152 @@ class C15(SessionProp):
             "keepalive 0 never pings; nothing after the loss; no exception. Non-trivial = >= 3 periods, a late/"
             "double/unsolicited response, or a reconnect.")
 
+LOSS_VARIANTS = [
+    ("broker_close", [("lose", 0, 0)]),
+    ("network_failure", [("lose", 0, 1)]),
+    ("protocol_error_abort", [("raw", 0, "f000"), ("lose", 0, 2)]),
+    ("keepalive_timeout", [("advance", 11), ("advance", 11), ("lose", 0, 2)]),
+    ("disconnect", [("disconnect", 0), ("lose", 0, 0)]),
+    ("malformed_publish_abort", [("raw", 0, "300400106162"), ("lose", 0, 2)]),
+]
+
+
+class PrefixFaultProp(SessionProp):
+    """fault enumeration: every prefix of every generated history is cut by a loss, followed by a
+    reconnect and fresh traffic"""
+    pre_fixed = {}
+    post_variants = []
+    hist_len = 12
+
+    def strategy(self, tier):
+        tb = self.table
+        post = self.post_variants
+
+        def mk(cfg, pre, ws, lv, pv):
+            p = dict(pre)
+            p.update(self.pre_fixed)
+            return (cfg, G.preamble(cfg, p), tb.decode(ws), lv, pv)
+        return st.builds(mk, G.cfg_strategy(self.profiles), G.pre_strategy(**self.pre_kwargs),
+                         G.words(self.hist_len if tier == "quick" else self.hist_len * 2),
+                         st.integers(0, len(LOSS_VARIANTS) - 1), st.integers(0, len(post) - 1))
+
+    def run_shard(self, spec):
+        res = ShardResult()
+        if spec[0] != "gen":
+            return self.run_exhaustive(spec, res)
+        _, tier, sd, n = spec
+        if n is None:
+            n = self.quick_examples if tier == "quick" else self.thorough_examples
+        prop = self
+
+        @hseed(sd)
+        @settings(max_examples=n, database=None, deadline=None, phases=[Phase.generate],
+                  suppress_health_check=list(HealthCheck), report_multiple_bugs=False)
+        @given(self.strategy(tier))
+        def run(x):
+            cfg, pre, hist, lv, pv = x
+            for k in range(len(hist) + 1):
+                ops = pre + hist[:k] + LOSS_VARIANTS[lv][1] + prop.post_variants[pv]
+                case = (cfg, ops)
+                res.add("prefix_cut", case, prop.check_case(case))
+        run()
+        return res
+
+
+T_CLEAN = G.Table([
+    (12, G.o_publish), (5, G.o_subscribe), (4, G.o_unsubscribe), (5, G.o_pubrec), (3, G.o_ack_good), (4, G.o_fire),
+    (2, G.o_window), (1, G.o_advance_small), (1, G.o_inpub), (1, G.o_pubcomp),
+])
+POST_CLEAN = [
+    [("build", 0), ("handlers", 0, 7), ("connect", 0, 0, 1, 0), ("rx", 0, "CONNACK", 0, 0), ("publish", 0, 1),
+     ("subscribe", 0, 0, 1, 1), ("publish", 0, 0), ("settle", 0), ("idle", 300.0)],
+    [("build", 0), ("handlers", 0, 7), ("window", 0, 3), ("connect", 0, 0, 1, 0), ("publish", 0, 2), ("rx", 0, "CONNACK", 0, 0),
+     ("publish", 0, 1), ("fire", 2), ("settle", 0), ("idle", 300.0)],
+    [("build", 0), ("connect", 0, 0, 0, 0), ("rx", 0, "CONNACK", 0, 1), ("publish", 0, 2), ("settle", 0), ("idle", 300.0)],
+]
+
+
+class C11(PrefixFaultProp):
+    id = "C11"
+    monitor = staticmethod(M.mon_c11)
+    table = T_CLEAN
+    pre_fixed = dict(clean=1, keepalive=7, connack=True)
+    pre_kwargs = dict(clean=1)
+    post_variants = POST_CLEAN
+    quick_examples = 250
+    thorough_examples = 6000
+    rule = ("Fault enumeration: every prefix of every generated clean-session history (publishes at mixed QoS "
+            "held back / sent / PUBREC-ed / retransmitted, subscribes, unsubscribes, window changes) is cut by each "
+            "kind of loss (broker close, network failure, client abort after a malformed packet or unknown type, "
+            "keepalive timeout, disconnect()), followed by a rebuilt protocol on the same address, fresh traffic, "
+            "the broker answering everything and an idle tail; plus all histories up to length 4/5 over a 9-op "
+            "alphabet x 5 loss kinds (exhaustive). Oracle: at the loss every pending QoS>0 publish / subscribe / "
+            "unsubscribe Deferred of that connection fails exactly once with that very reason object; nothing of "
+            "a request made on a clean connection is written on a later one. Non-trivial = at least one request "
+            "pending at the cut.")
+    EX_ALPHA = [
+        [("publish", 0, 0)], [("publish", 0, 1)], [("publish", 0, 2)], [("subscribe", 0, 0, 1, 1)],
+        [("unsubscribe", 0, 1, 2, 0)], [("rx", 0, "PUBREC", 0, 0, 0)], [("rx", 0, "PUBACK", 0, 0, 0)], [("fire", 1)],
+        [("window", 0, 2)],
+    ]
+    CFGS = [dict(profile=3, version=4, jitter=0.25)]
+
+    def exhaustive_specs(self, tier, seed):
+        return [("ex", lv, ln) for lv in range(len(LOSS_VARIANTS)) for ln in range(0, (5 if tier == "quick" else 6))]
+
+    def run_exhaustive(self, spec, res):
+        _, lv, ln = spec
+        pre = G.preamble({}, dict(handlers=7, clean=1, keepalive=7))
+        n = 0
+        for seq in itertools.product(self.EX_ALPHA, repeat=ln):
+            ops = pre + [o for g in seq for o in g] + LOSS_VARIANTS[lv][1] + POST_CLEAN[(n + lv) % len(POST_CLEAN)]
+            case = (self.CFGS[0], ops)
+            res.add("exhaustive:cut", case, self.check_case(case))
+            n += 1
+        res.exhaustive["len%d/%s" % (ln, LOSS_VARIANTS[lv][0])] = n
+        return res
+
+
+T_PERS = G.Table([
+    (12, G.o_publish_q12), (3, G.o_publish_q0), (5, G.o_pubrec), (3, G.o_puback), (3, G.o_pubcomp), (3, G.o_ack_good),
+    (3, G.o_fire), (2, G.o_window), (1, G.o_advance_small), (3, G.o_lose_reconnect_persist), (1, G.o_lose_reconnect_clean),
+    (2, G.o_reconnect_noack), (2, G.o_lose), (2, G.o_connack_ok), (1, G.o_build), (1, G.o_subscribe),
+])
+POST_PERS = [
+    [("build", 0), ("handlers", 0, 7), ("connect", 0, 0, 0, 0), ("rx", 0, "CONNACK", 0, 1), ("publish", 0, 1), ("settle", 0), ("idle", 300.0)],
+    [("build", 0), ("handlers", 0, 7), ("window", 0, 2), ("connect", 0, 0, 0, 0), ("publish", 0, 2), ("publish", 0, 1),
+     ("rx", 0, "CONNACK", 0, 1), ("fire", 1), ("settle", 0), ("idle", 300.0)],
+    [("build", 0), ("connect", 0, 0, 1, 0), ("publish", 0, 1), ("rx", 0, "CONNACK", 0, 0), ("publish", 0, 2), ("settle", 0), ("idle", 300.0)],
+    [("build", 0), ("connect", 0, 0, 0, 0), ("lose", 0, 1), ("build", 0), ("connect", 0, 0, 0, 0), ("rx", 0, "CONNACK", 0, 1),
+     ("fire", 2), ("lose", 0, 0), ("build", 0), ("handlers", 0, 7), ("connect", 0, 0, 0, 0), ("rx", 0, "CONNACK", 0, 1), ("settle", 0), ("idle", 300.0)],
+    [("build", 0), ("lose", 0, 0), ("build", 0), ("connect", 0, 0, 0, 0), ("rx", 0, "CONNACK", 0, 1), ("settle", 0), ("idle", 300.0)],
+    [("build", 0), ("connect", 0, 0, 1, 0), ("lose", 0, 0), ("build", 0), ("connect", 0, 0, 0, 0), ("rx", 0, "CONNACK", 0, 0), ("settle", 0), ("idle", 300.0)],
+]
+
+
+class C12(PrefixFaultProp):
+    id = "C12"
+    monitor = staticmethod(M.mon_c12)
+    table = T_PERS
+    profiles = (2, 3)
+    pre_fixed = dict(clean=0, keepalive=7, connack=True)
+    pre_kwargs = dict(clean=0)
+    post_variants = POST_PERS
+    quick_examples = 800
+    thorough_examples = 12000
+    rule = ("Fault enumeration: every prefix of every generated persistent-session history (QoS 1/2 publishes in "
+            "every stage, QoS 0 held back, acks, expiries, window changes, nested losses and reconnects) is cut by "
+            "each kind of loss, followed by one of six continuations: persistent reconnect, persistent reconnect "
+            "with publishes before its CONNACK, clean reconnect with a publish before its CONNACK, three losses in "
+            "a row (one before CONNACK), a rebuilt protocol lost before connect(), a clean connection lost before "
+            "its CONNACK; then the broker answers everything and an idle tail runs. Oracle: reference model of the "
+            "persistent sender (no publish Deferred fails at a persistent loss; inside the next persistent CONNACK "
+            "exactly the unacknowledged PUBRELs and, with DUP=1, same bytes and original order, the unacknowledged "
+            "PUBLISHes, none for released ids; a clean CONNACK fails the carried-over ones with MQTTSessionCleared "
+            "and nothing of them is written again; requests made on the new connection before its CONNACK are "
+            "neither failed nor re-sent; all complete once everything is answered). Non-trivial = a persistent "
+            "loss with at least one unfinished QoS>0 publish.")
+
 
 class C17(SessionProp):
     id = "C17"
@@ -535,3 +681,5 @@ _reg(C04)
 _reg(C08)
 _reg(C13)
 _reg(C15)
+_reg(C11)
+_reg(C12)
